@@ -634,7 +634,12 @@ def object_type_to_spec(
             default = qlcompiler.evaluate_to_python_val(
                 default.text, schema=schema)
             if is_multi and not isinstance(default, frozenset):
-                default = frozenset((default,))
+                if isinstance(default, (tuple, list, set)):
+                    # a set literal with several elements evaluates to
+                    # a tuple of its elements
+                    default = frozenset(default)
+                else:
+                    default = frozenset((default,))
 
         constraints = p.get_constraints(schema).objects(schema)
         exclusive = schema.get('std::exclusive', type=s_constr.Constraint)
